@@ -594,6 +594,18 @@ def build(sc):
         # `sc["tree"]` describes the final graph.
         for a, b in late.get("removed", []):
             objs[a].requires(objs[b])
+        gone = []
+        for g in late.get("dropped", []):
+            if g["sched"] in objs and g["after"] in objs and g["before"] in objs and \
+                    objs[g["after"]] in objs[g["before"]].required:
+                # `before` requires `gone` requires `after`, instead of `before` requires `after`
+                o = VJob(g["name"], dict(kind="job", name=g["name"], d=1, k=0, exc=False, crit=False, forever=False,
+                                         ch=0, sd=0, h=97 + len(gone), coro=False, req=[g["after"]]))
+                objs[g["sched"]].add(o)
+                o.requires(objs[g["after"]])
+                objs[g["before"]].requires(objs[g["after"]], remove=True)
+                objs[g["before"]].requires(o)
+                gone.append((g, o))
         with contextlib.redirect_stdout(io.StringIO()):
             for op in late.get("inspect", []):
                 for o in [x for x in objs.values() if isinstance(x, PureScheduler)]:
@@ -616,6 +628,14 @@ def build(sc):
             objs[a].requires(objs[b])
         for a, b in late.get("removed", []):
             objs[a].requires(objs[b], remove=True)
+        for g, o in gone:
+            if g["how"] == "bypass":
+                objs[g["sched"]].bypass_and_remove(o)
+            else:
+                # by hand: the member is removed and its dependant re-linked (no sanitize() either)
+                objs[g["sched"]].remove(o)
+                objs[g["before"]].requires(o, remove=True)
+                objs[g["before"]].requires(objs[g["after"]])
     for a, b in between.get("removed", []):
         if (a, b) not in final and a in objs and b in objs and a not in later_jobs and b not in later_jobs:
             objs[a].requires(objs[b])
